@@ -98,7 +98,7 @@ CHECKS = {
                 "same input state; substituting encrypt's output-byte terms for decrypt's input bytes, decrypt's output equals the plaintext bit for bit and its state equals encrypt's (a 0x7F mask, "
                 "a sign extension, a one-sided constant is refuted); the only length store is mlen+8 / clen-8; cursors and remaining length (or one index over full words plus the left-over count) advance in lock-step through one or several "
                 "data loops, the tag sits right after the data and survives, every input byte is loaded before the same output offset is stored; decrypt returns check_tag's verdict on the tag just generated."
-                " Structure is recognised first (pointer-walking or index-based loops, bulk loops, merged tails); an unrecognised shape ends in exit 2, never in a verdict. Code that tests buffer alignment is followed per alignment class (alternative chains of data loops; every way through encrypt paired with every way through decrypt); R-C01-SETUPFN: the shared setup function computes the same state from the nonce bytes on every path class; R-C01-NOSTATE: no function reachable from the entry points refers to writable global state. R-C01-SMALL: every message length 0..40 as straight paths - length stored, exactly the output bytes written, tag position, load before store per offset, no read outside the input.",
+                " Structure is recognised first (pointer-walking or index-based loops, bulk loops, merged tails); an unrecognised shape ends in exit 2, never in a verdict. Code that tests buffer alignment is followed per alignment class (alternative chains of data loops; every way through encrypt paired with every way through decrypt); R-C01-SETUPFN: the shared setup function computes the same state from the nonce bytes on every path class; R-C01-NOSTATE: no function reachable from the entry points refers to writable global state. R-C01-SMALL: every message length 0..100 as straight paths - length stored, exactly the output bytes written, tag position, load before store per offset, no read outside the input.",
         "note": "Induction itself is the argument in DESIGN.md. A deviation from the specification made consistently in both directions keeps the round trip and is deliberately not reported by this "
                 "check. N0 IR of clang 14; alignment/endianness independence is C06's R-BYTEWISE; purity of helpers/permutation is C05/C19.",
         "technique": "relational symbolic path summaries (encrypt vs decrypt) in a GF(2) bit-provenance term domain with term substitution, per path class; affine cursor tracking",
@@ -106,7 +106,7 @@ CHECKS = {
     "C02": {
         "text": "Construction conformance on every path: the same per-path-class summaries compared with the TinyJAMBU v2 reference (frame bits 0x10/0x30/0x50/0x70, 640-step and 1024/1152/1280-step "
                 "permutations, key words NOT LE32, nonce words, partial-block length injection into word 1, tag = two squeezes of word 2) for setup_N, absorb_N, generate_tag_N and the six AEAD "
-                "functions, plus the three C permutation backends against the bit-serial NLFSR for every round count (C05's STEP/SCHED). Pins every absorbed and emitted bit to the specification's formula. Besides the per-class summaries, shape-independent small-length rules evaluate each AEAD function and absorb_N for every length 0..40 as straight paths (length concrete, data symbolic, one path per alignment class) and compare them with the sequential reference: refuters only (nothing beyond the bound is covered), so an unrecognised loop shape with a defect that shows at small lengths is still reported. setup_N is checked per path class (alignment of the nonce pointer), absorb_N per alternative loop. R-C02-NOSTATE: no writable global state reachable from the entry points.",
+                "functions, plus the three C permutation backends against the bit-serial NLFSR for every round count (C05's STEP/SCHED). Pins every absorbed and emitted bit to the specification's formula. Besides the per-class summaries, shape-independent small-length rules evaluate each AEAD function and absorb_N for every length 0..100 as straight paths (length concrete, data symbolic, one path per alignment class) and compare them with the sequential reference: refuters only (nothing beyond the bound is covered), so an unrecognised loop shape with a defect that shows at small lengths is still reported. setup_N is checked per path class (alignment of the nonce pointer), absorb_N per alternative loop. R-C02-NOSTATE: no writable global state reachable from the entry points.",
         "note": "No value is computed: agreement with other implementations follows only given that tj/mode.py and tj/asmx.py transcribe the specification correctly (trusted). gcc and object-level "
                 "equivalence of shared/static builds not covered; alignment/endianness independence is C06's.",
         "technique": "symbolic path summaries in a GF(2) term domain vs a reference model of the mode; permutation by abstract interpretation of one loop iteration",
@@ -118,14 +118,14 @@ CHECKS = {
                 "plaintext, clen-8); lock-step/tag position/load-before-store (the tag bytes are copied before the first plaintext store), and C03's guard / must-pass / argument rules on "
                 "the three SIV decrypt functions."
                 " R-C08-SETUPFN (setup is a function of the nonce bytes on every path class and every nonce bit enters the state), R-C08-NOSTATE (no writable global state reachable), R-C08-SMALL "
-                "(every length 0..40 as straight paths: i/o and memory discipline, refusal of inputs shorter than a tag).",
+                "(every length 0..100 as straight paths: i/o and memory discipline, refusal of inputs shorter than a tag).",
         "note": "Values not computed; tag sensitivity is a cipher property; check_tag itself is decided under C03/C04. Consistent deviations from the construction are C09's.",
         "technique": "relational symbolic path summaries (encrypt vs decrypt) in a GF(2) term domain; finite-class execution for the length guard",
     },
     "C09": {
         "text": "Construction conformance of the six SIV functions with the documented two-pass construction (constants 0x90/0xB0/0xD0, pass 2 never absorbs, nonce' composition) at bit level on "
                 "every path class, and the dependency shape this implies: the pass-2 state derives from setup(key, npub[0..3] || tag) only, so the keystream depends on key, four nonce bytes and tag; "
-                "the message enters the body only through the final xor at the same offset. Besides the per-class summaries, shape-independent small-length rules evaluate each SIV function for every length 0..40 as straight paths (length concrete, data symbolic, one path per alignment class) and compare them with the sequential reference: refuters only (nothing beyond the bound is covered), so an unrecognised loop shape with a defect that shows at small lengths is still reported. R-C09-NOSTATE as for C02.",
+                "the message enters the body only through the final xor at the same offset. Besides the per-class summaries, shape-independent small-length rules evaluate each SIV function for every length 0..100 as straight paths (length concrete, data symbolic, one path per alignment class) and compare them with the sequential reference: refuters only (nothing beyond the bound is covered), so an unrecognised loop shape with a defect that shows at small lengths is still reported. R-C09-NOSTATE as for C02.",
         "note": "NOT decided: 'different tags give unrelated keystreams / XOR of bodies differs from XOR of plaintexts beyond chance' - a cryptographic property of the permutation, declined.",
         "technique": "symbolic path summaries in a GF(2) term domain vs the documented construction",
     },
@@ -148,7 +148,7 @@ CHECKS = {
         "text": "Construction conformance of TinyJAMBU-Hash with the documented MDPH construction: init, update and finalize are evaluated per buffer-position class (0..15), per length class, with "
                 "one generic iteration of the whole-block loop; all offsets are then constants and block contents are tracked byte for byte in the GF(2) term domain with the permutation "
                 "uninterpreted. Every compression equals K = R||M, L ^= d, L' = P(K,L)^L, R' = P(K,L^1)^L^1 with 20 rounds, d = 0 / 2 (final), padding 0x01 0*, digest = LE32(L')||LE32(R'); the blocks "
-                "compressed are exactly the consecutive 16-byte groups of the message; the 256-bit C permutation equals the NLFSR for every round count. Besides the per-class summaries, shape-independent small-length rules evaluate tinyjambu_hash_update for each buffer position and every input length 0..48 as straight paths (length concrete, data symbolic, one path per alignment class) and compare them with the sequential reference: refuters only (nothing beyond the bound is covered), so an unrecognised loop shape with a defect that shows at small lengths is still reported. A block loop that also tops up the buffer in its first round is analysed with that iteration peeled into the entry path.",
+                "compressed are exactly the consecutive 16-byte groups of the message; the 256-bit C permutation equals the NLFSR for every round count. Besides the per-class summaries, shape-independent small-length rules evaluate tinyjambu_hash_update for each buffer position and every input length 0..100 as straight paths (length concrete, data symbolic, one path per alignment class) and compare them with the sequential reference: refuters only (nothing beyond the bound is covered), so an unrecognised loop shape with a defect that shows at small lengths is still reported. A block loop that also tops up the buffer in its first round is analysed with that iteration peeled into the entry path.",
         "note": "No digest is computed; the MDPH description in tj/rules/hashlib.py is a trusted transcription of tools/hashref/README.md and the source comments. Little-endian host branch only.",
         "technique": "symbolic path summaries per finite class (buffer position, length residue) in a GF(2) term domain vs a reference model",
     },
@@ -156,7 +156,7 @@ CHECKS = {
         "text": "tinyjambu_hash_update is shown to implement 'append to a byte stream; compress every full 16 bytes' exactly: for each of the 16 buffer positions and every length class the buffered "
                 "bytes, the bytes taken for the top-up, the whole-block loop (generic iteration, lock-step cursor/remaining) and the stashed tail are the consecutive bytes of (buffered || input), and the "
                 "position is updated accordingly; so the abstract state after a call depends on the concatenated stream only, which gives split-independence by induction over the calls. init/reinit "
-                "write every field that is read before written (whatever the object held); one-shot = init; update; finalize; free. Besides the per-class summaries, shape-independent small-length rules evaluate update for each buffer position and every input length 0..48 as straight paths (length concrete, data symbolic, one path per alignment class) and compare them with the sequential reference: refuters only (nothing beyond the bound is covered), so an unrecognised loop shape with a defect that shows at small lengths is still reported.",
+                "write every field that is read before written (whatever the object held); one-shot = init; update; finalize; free. Besides the per-class summaries, shape-independent small-length rules evaluate update for each buffer position and every input length 0..100 as straight paths (length concrete, data symbolic, one path per alignment class) and compare them with the sequential reference: refuters only (nothing beyond the bound is covered), so an unrecognised loop shape with a defect that shows at small lengths is still reported.",
         "note": "Digest equality as a value is not computed. Isolation between state objects rests on C19 (no globals).",
         "technique": "symbolic path summaries per finite class vs an abstract stream machine; induction over the call sequence stated in DESIGN.md",
     },
